@@ -7,10 +7,11 @@ import collections
 import json
 import z3
 
-from .. import lib, symx, rx, lex, refmodel, values, lang
+from .. import lib, symx, rx, lex, refmodel, values, lang, docs
 from .c03 import simple_class_name
 
 LEVEL = 'model_checking'
+UNI_WS = ['\xa0', '\u3000', '\x0b', '\x1f', '\x85', '\u2003']
 FRESH_PROCESS_PER_UNIT = True
 REPLAY_ONE_PER_PROCESS = True
 
@@ -266,6 +267,27 @@ def analyse(unit, tier, state_label):
         if ok and text is not None and not L.valid_text(text, True):
             cands.append(dict(cls=unit, kind='accepts-invalid:%s:emitted-text' % type(v).__name__, witness=dict(value=encode(v)),
                               detail='accepted %r, emitted %r' % (v, text)))
+    # strings with whitespace that is not XSD whitespace (NBSP, U+3000, VT, U+001F, NEL, EM SPACE) around and inside solver-chosen valid
+    # strings: the symbolic part treats get_cleaned_token as the identity on normalised strings, so what the real function does with
+    # these characters is decided here by running it; the emitted text is judged by the oracle (XSD collapse knows SP, TAB, LF, CR only)
+    if L.kind not in ('decimal', 'integer', 'empty') and (L.T.get('patterns') or L.T.get('enums') or L.kind == 'union'):
+        bases = [v for v in docs.representatives(L.T, 4) if isinstance(v, str) and v]
+        offered, placed = set(), set()
+        for b in bases[:3]:
+            for u in UNI_WS:
+                forms = [('before', u + b), ('after', b + u), ('inside', b[:1] + u + b[1:])]
+                if ' ' in b:
+                    forms += [('for-a-space', b.replace(' ', u)), ('next-to-a-space', b.replace(' ', ' ' + u))]
+                for place, v in forms:
+                    if v in offered or place in placed:
+                        continue
+                    offered.add(v)
+                    ok, text = concrete(ctor, v)
+                    stats['paths'] += 1
+                    if ok and text is not None and not L.valid_text(text, True):
+                        placed.add(place)
+                        cands.append(dict(cls=unit, kind='accepts-invalid:str:non-xsd-whitespace-' + place, witness=dict(value=encode(v)),
+                                          detail='accepted %r, emitted %r' % (v, text)))
     # concrete kinds: bool, None
     for v in (True, False):
         ok, text = concrete(ctor, v)
